@@ -79,6 +79,14 @@ pub fn pool(tier: &str) -> Vec<Term> {
   v.push(Term::cached(Term::concat(vec![Term::raw("x"), Term::orig("", "e.js")])));
   v.push(Term::cached(Term::replace(o("a\nb"), vec![Repl::new(1, 2, "")])));
   v.push(Term::cached(Term::cached(o("a"))));
+  // children whose names sit at different local than global indices, plain and behind a cache (the
+  // cache is filled by whichever observer runs first: text-carrying stream or map())
+  {
+    let nv = trees::named_variants();
+    v.push(Term::concat(vec![nv[0].clone(), nv[2].clone()]));
+    v.push(Term::cached(Term::concat(vec![nv[0].clone(), nv[2].clone()])));
+    v.push(Term::cached(Term::concat(vec![nv[4].clone(), Term::raw(";"), nv[1].clone()])));
+  }
   v.push(Term::concat(vec![Term::cached(o("a;b")), Term::replace(Term::raw("x"), vec![Repl::new(0, 0, "y")])]));
   v.push(Term::replace(Term::concat(vec![o("a"), Term::raw("b")]), vec![Repl::new(1, 2, "Z").named("n")]));
   v.retain(|t| !cached_under_replace(t));
